@@ -79,6 +79,7 @@ class Logic:
     def relevant_axioms(self, formulas):
         """Axioms whose defined symbols occur (transitively) in `formulas`.  Dropping the others only weakens the
         hypotheses, so this is sound; it keeps each query small."""
+        self.closure_lemmas()
         syms = set()
         for f in formulas:
             syms |= symbols_of(f)
@@ -251,6 +252,11 @@ class Logic:
                 C(a, b), self.Or(a == b, self.exists(1, lambda c: self.And(R(a, c), C(c, b)))))))
             ax.append(self.forall(2, lambda a, b: self.Implies(
                 C(a, b), self.Or(a == b, self.exists(1, lambda c: self.And(C(a, c), R(c, b)))))))
+            # the closure of a symmetric relation is symmetric   [y0_rtc_symm = ReflTransGen.symmetric]
+            ax.append(self.Implies(self.forall(2, lambda a, b: self.Implies(R(a, b), R(b, a))),
+                                   self.forall(2, lambda a, b: self.Implies(C(a, b), C(b, a)))))
+            if "y0_rtc_symm" not in self.lemma_uses:
+                self.lemma_uses.append("y0_rtc_symm")
         else:
             d = z3.Function(nm + "_rank", self.Node, self.Node, z3.IntSort())
             ax.append(self.forall(2, lambda a, b: d(a, b) >= 0))
